@@ -52,6 +52,7 @@ type c10ghost struct {
 	openTyp      []byte
 	gone         []SegmentationDescriptor // reported closed or discarded
 	perturbed    bool                     // history predicate of known finding C10-F1
+	inBlackout   bool                     // a breakaway was accepted and no resumption since
 }
 
 func c10index(list []SegmentationDescriptor, d SegmentationDescriptor) int {
@@ -159,12 +160,24 @@ func (g *c10ghost) process(st State, x c10d, repeatOfLast bool) {
 		}
 	}
 	// bookkeeping of the incoming descriptor
+	// A resumption discards (from the most recent pending breakaway upwards) only while a blackout
+	// is in progress, i.e. a breakaway was accepted and no resumption since. A second resumption
+	// without a new breakaway discards nothing, even if an older breakaway is still open (history
+	// breakaway, breakaway, resumption, resumption): the statement does not ask for more, and the
+	// first version of this model, which discarded whenever any breakaway was ghost-open, raised a
+	// false alarm on that history in the thorough tier (DESIGN.md 8, false alarms).
 	if x.typ == 0x14 {
-		if b := g.pendingBreakaway(); b >= 0 {
-			for len(g.open) > b {
-				g.remove(len(g.open) - 1)
+		if g.inBlackout {
+			if b := g.pendingBreakaway(); b >= 0 {
+				for len(g.open) > b {
+					g.remove(len(g.open) - 1)
+				}
 			}
 		}
+		g.inBlackout = false
+	}
+	if x.typ == 0x13 {
+		g.inBlackout = true
 	}
 	if c10opens(x.typ) {
 		if c10index(g.open, x.d) < 0 && c10index(g.gone, x.d) < 0 {
@@ -258,12 +271,22 @@ func VH_C10_Blackout() {
 	c10runFrom(st, g, 1, k, []byte{0x14, 0x22, 0x23, 0x24, 0x30, 0x34, 0x35, 0x3C, 0x40, 0x44})
 }
 
-// all histories of 3 calls (thorough: 4) over an 11-type alphabet
+// all histories of 3 calls over an 11-type alphabet (both tiers)
 func VH_C10_Histories() {
+	c10run(3, c10small)
+}
+
+// deeper histories over the 7 types that drive the tracker's special cases (program start/end,
+// breakaway/resumption, an out type a resumption cannot close, chapter start/end): 4 calls in the
+// thorough tier (9k jobs), 2 in the quick tier. (4 calls over all 11 types = 36k jobs ran at
+// 11 jobs/s: about an hour, not kept.)
+var c10core = []byte{0x10, 0x11, 0x13, 0x14, 0x22, 0x30, 0x31}
+
+func VH_C10_Deep() {
 	if vrt.Tier() == 0 {
-		c10run(3, c10small)
+		c10run(2, c10core)
 	} else {
-		c10run(4, c10small)
+		c10run(4, c10core)
 	}
 }
 
